@@ -87,7 +87,7 @@ func verifH_C13_flusher() {
 	// call the statement makes (not only where pages change or the log is written)
 	callTicks := verifParam("callticks", 0) == 1
 
-	inStatement, dirtied, logDone := false, false, false
+	inStatement, dirtied, logDone, walSynced, wroteAfterLog := false, false, false, false, false
 	ticks := 0
 	storage.VerifPoint = func(ev string, off uint64) {
 		g := verifGoroutine()
@@ -96,6 +96,12 @@ func verifH_C13_flusher() {
 			if g == 0 && inStatement {
 				verifAssert(verifLockHeld(lock) >= 1, "session-modifies-pages-under-the-lock")
 				dirtied = true
+				if logDone {
+					// the statement goes on changing pages after a log append: that append did not complete it,
+					// and a write that fell after it fell inside the statement
+					verifAssert(!wroteAfterLog, "no-write-inside-a-statement")
+					logDone, walSynced = false, false
+				}
 			}
 			if g != 0 {
 				verifAssert(verifLockHeld(lock) == 2, "flusher-holds-the-lock-exclusively")
@@ -107,6 +113,22 @@ func verifH_C13_flusher() {
 			// whoever writes: nothing reaches the data file between the statement's
 			// first change and the end of its log append
 			verifAssert(!(inStatement && dirtied && !logDone), "no-write-inside-a-statement")
+			if inStatement && dirtied && logDone && g != 0 {
+				wroteAfterLog = true
+			}
+		case "rs.end":
+			// the statement is about to release the store lock: its changes and its log append are complete
+			// (set here rather than after the statement returns: natively the flusher may get the lock
+			// between the release and the return)
+			// only if the log append has happened: a statement that releases the lock
+			// before appending its records has not completed it
+			if g == 0 && inStatement && (walSynced || !dirtied) {
+				logDone = true
+			}
+		case "wal.synced":
+			if g == 0 && inStatement {
+				walSynced = true
+			}
 		case "ddl.changes.done":
 			// CREATE TABLE is not logged: its changes are complete here, before its own flush
 			if g == 0 {
